@@ -7,6 +7,7 @@ import re
 import shlex
 import shutil
 import time
+import threading
 
 from .common import (VERIF, REPO, SCRATCH, REPLAY_DIR, NCPU, log, run, repo_fingerprint, known_entries,
                      write_evidence)
@@ -24,6 +25,9 @@ class Ob:
         self.harness = "%s::%s" % (module, fn)
         self.timeout = int(attrs.get("timeout", 600))
         self.mem = float(attrs.get("mem", 24))
+        # memory the scheduler reserves for this obligation: the declared limit for harnesses known to be heavy
+        # (mem= given), a small default otherwise (most harnesses stay below 3 GB)
+        self.reserve = float(attrs["mem"]) * 0.8 if "mem" in attrs else 5.0
         self.known = attrs.get("known")
         self.fns = [f for f in attrs.get("fns", "").split(",") if f]
         self.bound = attrs.get("bound", "")
@@ -162,10 +166,25 @@ def playback_tests(out):
 
 
 def run_harness(ob, logdir):
+    """Two phases: (1) decide, without trace generation (the concrete-playback options make CBMC keep a trace per
+    property: measured 4.4 GB / 160 s without against 43.8 GB / OOM with, for the same passing harness); (2) only if a
+    check failed, run again with concrete playback to obtain the counterexample as a unit test."""
+    r = _run_harness(ob, logdir, playback=False)
+    if r["class"] == "fail":
+        r2 = _run_harness(ob, logdir, playback=True)
+        if r2["class"] == "fail":
+            r2["wall_s"] += r["wall_s"]
+            return r2
+        r["why"] += " [second run for the counterexample values: %s %s]" % (r2["class"], r2["why"][:120])
+    return r
+
+
+def _run_harness(ob, logdir, playback):
     cdir = os.path.join(ENGINE_K, ob.crate)
-    logf = os.path.join(logdir, "%s__%s.log" % (ob.crate, ob.harness.replace("::", "__")))
-    cmd = ("cargo kani --target-dir %s --harness %s --exact -Z concrete-playback --concrete-playback=print %s %s"
-           % (shlex.quote(target_dir(ob.crate)), shlex.quote(ob.harness), crate_flags(ob.crate), ob.extra))
+    logf = os.path.join(logdir, "%s__%s%s.log" % (ob.crate, ob.harness.replace("::", "__"), ".playback" if playback else ""))
+    cmd = ("cargo kani --target-dir %s --harness %s --exact %s %s %s"
+           % (shlex.quote(target_dir(ob.crate)), shlex.quote(ob.harness),
+              "-Z concrete-playback --concrete-playback=print" if playback else "", crate_flags(ob.crate), ob.extra))
     rc, out, dt, to = run(cmd, cwd=cdir, timeout=ob.timeout, mem_gb=ob.mem, out_path=logf)
     r = parse_log(out)
     r.update({"ob": ob, "rc": rc, "wall_s": dt, "timed_out": to, "log": logf, "out": out})
@@ -308,8 +327,26 @@ def check_property(prop, tier, seed, only=None, jobs=None, assumptions=None, out
             return 2
     jobs = jobs or int(os.environ.get("VERIF_JOBS", max(2, min(12, NCPU - 2))))
     results = []
+    # admission control by memory: the machine has no swap, an over-committed run ends in the kernel's OOM killer
+    budget = float(os.environ.get("VERIF_MEM_GB", 54))
+    cond = threading.Condition()
+    in_use = [0.0]
+
+    def admitted(o):
+        need = min(o.reserve, budget)
+        with cond:
+            while in_use[0] + need > budget:
+                cond.wait()
+            in_use[0] += need
+        try:
+            return run_harness(o, logdir)
+        finally:
+            with cond:
+                in_use[0] -= need
+                cond.notify_all()
+
     with cf.ThreadPoolExecutor(max_workers=jobs) as ex:
-        futs = {ex.submit(run_harness, o, logdir): o for o in sorted(obs, key=lambda o: -o.timeout)}
+        futs = {ex.submit(admitted, o): o for o in sorted(obs, key=lambda o: (-o.reserve, -o.timeout))}
         for f in cf.as_completed(futs):
             r = f.result()
             results.append(r)
